@@ -248,8 +248,13 @@ def _ref_neg_slice(flow, start, stop, step):
                 if len(d) > lag:
                     yield d.popleft()
         else:
-            # a negative start has to see the end of the flow
-            items = list(flow)
+            # a negative start has to see the end of the flow - unless the stop is
+            # non-negative and stop - start values have passed: xs[start:stop] is then empty
+            items = []
+            for v in flow:
+                items.append(v)
+                if stop is not None and stop >= 0 and len(items) >= stop - start:
+                    return
             for v in items[slice(start, stop)]:
                 yield v
     return itertools.islice(core(), None, None, step)
